@@ -84,6 +84,7 @@ class World(DuoWorld):
         DuoWorld.__init__(self, run)
         self.calls = []
         self.by_tok = {}
+        self.by_call_id = {}
         self.pending_forward = []  # ERRORs from the callee not yet forwarded to the caller
         self.interruptible = []  # invocations whose endpoint is pending and fails with its own error when cancelled
         self.ops_left = 0
@@ -144,6 +145,19 @@ class World(DuoWorld):
                 # the caller maps the URI to a class whose constructor fits only two-argument errors
                 caller.define(PickyError, "com.example.defined")
                 self.caller_map["com.example.defined"] = PickyError
+        # end-to-end payload encryption on both sessions (same symmetric default key): the dealer forwards the opaque
+        # payload fields as they are, and URI / arguments / class arrive just the same
+        cfg["payload_codec"] = ch.flag("payload-codec", 0.25)
+        self.ref_ring = None
+        if cfg["payload_codec"]:
+            import base64
+            import hashlib
+            from autobahn.wamp.cryptobox import KeyRing
+            key = base64.b64encode(hashlib.sha256(b"c18-shared-key").digest()).decode()
+            callee.set_payload_codec(KeyRing(default_key=key))
+            caller.set_payload_codec(KeyRing(default_key=key))
+            self.ref_ring = KeyRing(default_key=key)  # the dealer-side observer's own copy, to read what went by
+            self.run.probe("payload-codec-active")
         cfg["reentrant_onUserError"] = ch.flag("reentrant-onUserError", 0.25)
         if cfg["reentrant_onUserError"]:
             # the application's error hook reports every endpoint failure by publishing it - a call into the session
@@ -304,6 +318,9 @@ class World(DuoWorld):
         self.by_tok[rec.tok] = rec
         f = self.call(self.caller.session.call, "com.example.proc", rec.tok)
         rec.w = self.fw.watch(f)
+        last = self.caller.inbox[-1] if self.caller.inbox else None
+        if isinstance(last, self.M.Call) and last.request not in self.by_call_id:
+            self.by_call_id[last.request] = rec
         self.settle()
         self.run.log("app", "call", rec.tok, rec.kind, rec.args)
 
@@ -314,12 +331,18 @@ class World(DuoWorld):
         side.cursor += 1
         if not isinstance(msg, M.Call):
             return
-        tok = msg.args[0]
-        rec = self.by_tok[tok]
+        rec = self.by_call_id.get(msg.request)
+        if rec is None:
+            return
         rec.call_id = msg.request
         self.next_inv += 1
         rec.inv_id = self.next_inv
-        err = self.deliver_to(self.callee, M.Invocation(rec.inv_id, 4242, args=[tok]))
+        if msg.payload is not None:
+            inv = M.Invocation(rec.inv_id, 4242, payload=msg.payload, enc_algo=msg.enc_algo, enc_key=msg.enc_key,
+                               enc_serializer=msg.enc_serializer)
+        else:
+            inv = M.Invocation(rec.inv_id, 4242, args=[rec.tok])
+        err = self.deliver_to(self.callee, inv)
         if settle:
             self.settle()
         if err is not None:
@@ -340,6 +363,21 @@ class World(DuoWorld):
             self.run.violate("C18.uri-args-kwargs", "no-ERROR-for-raising-endpoint:%s" % type(msg).__name__, rec.tok)
             return
         uri, args, kw = getattr(rec, "expected", None) or self.expected_error(rec)
+        rec.error_enc = None
+        if self.ref_ring is not None:
+            if msg.payload is None or msg.enc_algo != "cryptobox":
+                self.run.violate("C18.uri-args-kwargs", "error-not-encoded-although-codec-active", rec.tok)
+                return
+            from autobahn.wamp.types import EncodedPayload
+            rec.error_enc = dict(payload=msg.payload, enc_algo=msg.enc_algo, enc_key=msg.enc_key, enc_serializer=msg.enc_serializer)
+            try:
+                inner_uri, dargs, dkw = self.ref_ring.decode(True, msg.error, EncodedPayload(msg.payload, msg.enc_algo, msg.enc_serializer, msg.enc_key))
+            except Exception as e:  # noqa
+                self.run.violate("C18.uri-args-kwargs", "error-payload-undecodable:%s" % type(e).__name__, repr(e))
+                return
+            if inner_uri != msg.error:
+                self.run.violate("C18.uri-args-kwargs", "error-uri-inside-differs", "%s vs %s" % (inner_uri, msg.error))
+            msg = M.Error(msg.request_type, msg.request, msg.error, args=dargs, kwargs=dkw)
         got_kw = dict(msg.kwargs or {})
         tb = got_kw.pop("traceback", None)
         if self.cfg["traceback"]:
@@ -362,7 +400,10 @@ class World(DuoWorld):
             self.run.probe("errors-forwarded-out-of-order")
         uri, args, kw = rec.error_seen
         before = {r.tok: r.w.state()[0] for r in self.calls}
-        err = self.deliver_to(self.caller, M.Error(48, rec.call_id, uri, args=args or None, kwargs=kw or None))
+        if getattr(rec, "error_enc", None):
+            err = self.deliver_to(self.caller, M.Error(48, rec.call_id, uri, **rec.error_enc))
+        else:
+            err = self.deliver_to(self.caller, M.Error(48, rec.call_id, uri, args=args or None, kwargs=kw or None))
         self.settle()
         if err is not None:
             self.run.violate("C18.never-lost", "error-delivery-raised:%s" % type(err).__name__, repr(err))
